@@ -2804,7 +2804,14 @@ impl LineBuf {
 				target.exclusive = false;
 				for _ in 0..count {
 					match motion {
-						Motion::BackwardChar => target.sub(1),
+						Motion::BackwardChar => {
+							// 'h' goes as far as the start of the line, and fails only when it cannot move at all
+							if target.get() == 0 || self.grapheme_at(target.get() - 1) == Some("\n") {
+								break
+							}
+							target.sub(1);
+							continue
+						}
 						Motion::ForwardChar => {
 							if !self.is_selecting() && self.cursor.exclusive {
 								// Normal mode: go as far as the line allows. The cursor stops on the last
@@ -2825,9 +2832,9 @@ impl LineBuf {
 						}
 						_ => unreachable!()
 					}
-					if self.grapheme_at(target.get()) == Some("\n") {
-						return MotionKind::Null
-					}
+				}
+				if matches!(motion, Motion::BackwardChar) && target.get() == self.cursor.get() {
+					return MotionKind::Null
 				}
 				if matches!(motion, Motion::ForwardChar) && !self.is_selecting() && self.cursor.exclusive && target.get() == self.cursor.get() {
 					// could not move at all
@@ -3208,11 +3215,20 @@ impl LineBuf {
 	/// takes the text up to the end of the line before, not that line's terminator: 'dw' on the last
 	/// word of a line leaves the line break alone.
 	fn stop_before_terminator(&mut self, start: usize, end: usize) -> (usize,usize) {
-		if end > start + 1 && self.grapheme_at(end - 1) == Some("\n") {
+		let ends_with_terminator = end > start && self.grapheme_at(end - 1) == Some("\n");
+		// (the terminator of the last line is never taken by a characterwise motion, even on an empty line)
+		if ends_with_terminator && (end > start + 1 || end == self.cursor.max) {
 			(start,end - 1)
 		} else {
 			(start,end)
 		}
+	}
+	/// Are there `count` characters from the cursor to the end of its line (what 'r' with a count needs)?
+	pub fn replace_fits(&mut self, count: usize) -> bool {
+		let left_on_line = (self.cursor.get()..self.cursor.max)
+			.take_while(|i| self.grapheme_at(*i).is_some_and(|gr| gr != "\n"))
+			.count();
+		count <= left_on_line
 	}
 	pub fn range_from_motion(&mut self, motion: &MotionKind) -> Option<(usize,usize)> {
 		let range = match motion {
@@ -3419,6 +3435,7 @@ impl LineBuf {
 				}
 				// where the text that is taken starts (the range cannot be asked for once the text is gone)
 				let range_start = self.operator_range(&verb, &motion).map(|(start,_,_)| start);
+				let cursor_line_start = self.start_of_line();
 				let content = self.get_register_content(&verb, &motion);
 				register.write_to_register(content);
 				if let Some(SelectRange::TwoDim(sel)) = self.select_range.as_ref() {
@@ -3434,6 +3451,15 @@ impl LineBuf {
 						MotionKind::InclusiveWithTargetCol((start,end),_) if verb == Verb::Change => {
 							// the emptied line is where the typing goes
 							self.cursor.set(start.min(end));
+						}
+						MotionKind::InclusiveWithTargetCol(..) if verb == Verb::Delete && range_start == Some(cursor_line_start) => {
+							// 'dd', 'dj': the lines from the cursor line on are gone; the cursor goes to the first
+							// non-blank of the line that took their place (of the last line, when they were at the end)
+							self.cursor.set(range_start.unwrap_or(0));
+							let line_start = self.start_of_line();
+							self.cursor.set(line_start);
+							let first_non_ws = self.eval_motion(None, MotionCmd(1,Motion::BeginningOfFirstWord));
+							self.move_cursor(first_non_ws);
 						}
 						MotionKind::ExclusiveWithTargetCol((_,_),pos) |
 							MotionKind::InclusiveWithTargetCol((_,_),pos) => {
@@ -3470,10 +3496,7 @@ impl LineBuf {
 			}
 			Verb::ReplaceCharInplace(ch,count) => {
 				// 'r' replaces characters of the cursor line only, and all of them or none
-				let left_on_line = (self.cursor.get()..self.cursor.max)
-					.take_while(|i| self.grapheme_at(*i).is_some_and(|gr| gr != "\n"))
-					.count();
-				if (count as usize) > left_on_line {
+				if !self.replace_fits(count as usize) {
 					return Ok(())
 				}
 				for i in 0..count {
